@@ -1,7 +1,7 @@
 (** Executable instantiation of the wsync models for the C11 correspondence: strong hash := the
-    block itself, source accessor := [nth].  Comparators used by the generated case files.
+    block itself.  Comparators used by the generated case files.
     Nothing here is used by a theorem. *)
-From Wharf Require Import Base.Prelude Wsync.Weak Wsync.Diff Wsync.Library Wsync.Sign Wsync.Apply.
+From Wharf Require Import Base.Prelude Wsync.Weak Wsync.Diff Wsync.Library Wsync.Sign Wsync.Apply Wsync.Spec.
 Local Open Scope N_scope.
 
 Definition MaxDataOp : N := 4194304.      (* wsync.MaxDataOp *)
@@ -9,17 +9,14 @@ Definition MaxDataOp : N := 4194304.      (* wsync.MaxDataOp *)
 (** operations as the Go harness prints them *)
 Inductive xop := XR (f i sp : N) | XD (d : list N).
 
-Definition getL (l : list N) (i : N) : N := nth (N.to_nat i) l 0.
-
+(** the function the C11 theorems are about ([Wsync/Spec.v]), with the block as its own hash *)
 Definition model_ops (bs maxData : N) (olds : list (list N)) (src : list N) (pref : option N) : option (list op) :=
-  let lib := sign_all (fun b : list N => b) bs 0 olds in
-  compute_diff bs maxData (getL src) (N.of_nat (length src))
-    (lookup_in nlist_eqb lib pref (fun a l => window (getL src) a l)).
+  diff_ops (fun b : list N => b) nlist_eqb bs maxData olds src pref.
 
 Definition concretize (src : list N) (o : op) : xop :=
-  match o with
-  | OpRange f i sp => XR f i sp
-  | OpData s l => XD (window (getL src) s l)
+  match conc src o with
+  | CRange f i sp => XR f i sp
+  | CData d => XD d
   end.
 
 Definition xop_eqb (a b : xop) : bool :=
